@@ -196,3 +196,19 @@ Print Assumptions model_is_code_from_timestamp_float.
 Theorem model_is_code_timestamp : forall t W f, gen_float_timestamp (dt_of W f (Some t)) = Ok (timestamp_float (gz_zone t) W f).
 Proof. exact gen_float_timestamp_eq. Qed.
 Print Assumptions model_is_code_timestamp.
+
+(* pendulum._safe_timezone on every kind of argument it distinguishes (translated from /repo; None and "local" = system local timezone are out
+   of scope): a pendulum timezone object is returned unchanged; a number of hours gives the FixedTimezone of that offset; a FOREIGN tzinfo is
+   asked, IN THIS ORDER, for .key (zoneinfo -> Timezone(key)), .localize (pytz -> Timezone(obj.zone)), tzname(None) == "UTC" (-> pendulum.UTC),
+   utcoffset(dt) (None = 0; truncated toward zero to whole seconds -> FixedTimezone); a string names the cached Timezone *)
+Theorem model_is_code_safe_timezone : forall o, glue_safe_timezone o = safe_tz_table o.
+Proof. exact glue_safe_timezone_spec. Qed.
+Print Assumptions model_is_code_safe_timezone.
+
+(* DateTime.instance(native, tz) when the tzinfo of the native value / the tz argument may be FOREIGN: the native fields and fold are read in the
+   zone of the timezone object _safe_timezone assigns to (native.tzinfo or tz) — create in that zone = convert_naive with the NATIVE fold and
+   raise_on_unknown_times = False: exactly the premises of instance_keeps_instant above (z = the zone of safe_tz_table, sf = the native fold) *)
+Theorem model_is_code_instance_foreign : forall W f tzo tzarg, wall_in_range W = true ->
+  glue_DateTime_instance_foreign (mkgfdt W (Z.b2z f) tzo) tzarg = g_build (option_map safe_tz_table (opt_ta_or tzo tzarg)) W f false.
+Proof. exact glue_instance_foreign_spec. Qed.
+Print Assumptions model_is_code_instance_foreign.
